@@ -198,7 +198,7 @@ def h3_has(h, name):
     return exists(lambda k: 0 <= k < len(h) and h3_key(h, k) == name)
 
 def h3_common_ok(h):
-    return h3_fields_ok(h, len(h)) and h3_order_ok(h, len(h)) and h3_nodup_ok(h, len(h)) and h3_cl_ok(h, len(h)) and h3_te_ok(h, len(h)) and h3_ap_ok(h, len(h))
+    return h3_fields_ok(h, len(h)) and h3_order_ok(h, len(h)) and h3_nodup_ok(h, len(h)) and h3_cl_ok(h, len(h)) and h3_cl_same(h, len(h)) and h3_te_ok(h, len(h)) and h3_ap_ok(h, len(h))
 
 def h3_request_name(x):
     return x == b":method" or x == b":scheme" or x == b":authority" or x == b":path" or x == b":protocol"
